@@ -921,6 +921,220 @@ def _restore_equivalent(repo: Repo, census: dict, report: dict[str, object]) -> 
             report.setdefault("restored_equivalent", []).append(fn.where)  # type: ignore[union-attr]
 
 
+def _inline_contextmanagers(mi: ModuleInfo, known_funcs: set[str], report: dict[str, object]) -> None:
+    cms: dict[str, FunctionInfo] = {}
+    for f in list(mi.functions.values()) + [m for c in mi.classes.values() for m in c.methods.values()]:
+        if f.qualname in known_funcs:
+            continue
+        if not any((dotted(d) or "").split(".")[-1] == "contextmanager" for d in f.node.decorator_list):
+            continue
+        ys = [n for n in ast.walk(f.node) if isinstance(n, (ast.Yield, ast.YieldFrom))]
+        ystm = [n for n in ast.walk(f.node) if isinstance(n, ast.Expr) and isinstance(n.value, ast.Yield) and n.value.value is None]
+        if len(ys) == 1 and len(ystm) == 1 and not f.node.args.vararg and not f.node.args.kwarg:
+            cms[f"self.{f.name}" if f.cls is not None else f.name] = f
+    if not cms:
+        return
+    count = [0]
+
+    def expand(w: ast.With, h: FunctionInfo) -> list[ast.stmt] | None:
+        call = w.items[0].context_expr
+        params = [a.arg for a in h.node.args.args]
+        if h.cls is not None:
+            params = params[1:]
+        if len(call.args) + len(call.keywords) != len(params) or any(k.arg not in params for k in call.keywords):  # type: ignore[attr-defined]
+            return None
+        bound = dict(zip(params, call.args))  # type: ignore[attr-defined]
+        bound.update({k.arg: k.value for k in call.keywords})  # type: ignore[attr-defined]
+        if not all(isinstance(v, (ast.Name, ast.Constant, ast.Attribute)) for v in bound.values()):
+            return None
+        count[0] += 1
+        tag = f"__{h.name.strip('_')}{count[0]}"
+        locals_ = {n.id for n in ast.walk(h.node) if isinstance(n, ast.Name) and isinstance(n.ctx, ast.Store)}
+        body = [copy.deepcopy(b) for b in h.node.body if not (isinstance(b, ast.Expr) and isinstance(b.value, ast.Constant))]
+
+        class _S(ast.NodeTransformer):
+            def visit_Name(self, n: ast.Name) -> ast.AST:
+                if n.id in bound and isinstance(n.ctx, ast.Load):
+                    return copy.deepcopy(bound[n.id])
+                if n.id in locals_:
+                    n.id = n.id + tag
+                return n
+
+        body = [_S().visit(b) for b in body]
+
+        def put(block: list[ast.stmt]) -> list[ast.stmt]:
+            out: list[ast.stmt] = []
+            for b in block:
+                if isinstance(b, ast.Expr) and isinstance(b.value, ast.Yield):
+                    out.extend(w.body)
+                    continue
+                for f_ in ("body", "orelse", "finalbody"):
+                    v = getattr(b, f_, None)
+                    if isinstance(v, list) and v and isinstance(v[0], ast.stmt):
+                        setattr(b, f_, put(v))
+                if isinstance(b, ast.Try):
+                    for hd in b.handlers:
+                        hd.body = put(hd.body)
+                out.append(b)
+            return out
+
+        return put(body)
+
+    def visit(block: list[ast.stmt], fn: FunctionInfo) -> list[ast.stmt]:
+        out: list[ast.stmt] = []
+        for st in block:
+            for f_ in ("body", "orelse", "finalbody"):
+                v = getattr(st, f_, None)
+                if isinstance(v, list) and v and isinstance(v[0], ast.stmt):
+                    setattr(st, f_, visit(v, fn))
+            if isinstance(st, ast.Try):
+                for hd in st.handlers:
+                    hd.body = visit(hd.body, fn)
+            if isinstance(st, ast.With) and len(st.items) == 1 and st.items[0].optional_vars is None and isinstance(st.items[0].context_expr, ast.Call):
+                key = dotted(st.items[0].context_expr.func) or ""
+                h = cms.get(key)
+                if h is not None and h is not fn and (h.cls is None or h.cls is fn.cls):
+                    new = expand(st, h)
+                    if new is not None:
+                        for o in new:
+                            ast.copy_location(o, st)
+                            ast.fix_missing_locations(o)
+                        out.extend(new)
+                        report.setdefault("inlined_helpers", []).append(f"{h.qualname} (context manager) -> {fn.qualname}")  # type: ignore[union-attr]
+                        continue
+            out.append(st)
+        return out
+
+    for fn in list(mi.functions.values()) + [m for c in mi.classes.values() for m in c.methods.values()]:
+        if fn in cms.values():
+            continue
+        fn.node.body = visit(fn.node.body, fn)
+    # a context manager nothing refers to any more is dropped
+    for key, h in cms.items():
+        still = any(isinstance(n, ast.Attribute) and n.attr == h.name or (isinstance(n, ast.Name) and n.id == h.name)
+                    for f in list(mi.functions.values()) + [m for c in mi.classes.values() for m in c.methods.values()] if f is not h for n in ast.walk(f.node))
+        if not still:
+            if h.cls is not None:
+                h.cls.methods.pop(h.name, None)
+            else:
+                mi.functions.pop(h.name, None)
+
+
+def _hoist_walrus(block: list[ast.stmt]) -> tuple[list[ast.stmt], int]:
+    """if (x := E) <rest of test>: ...   ->   x = E ; if x <rest of test>: ...      when E is what the test evaluates first"""
+    from .canonical import _evaluated_before
+
+    out: list[ast.stmt] = []
+    n = 0
+    for st in block:
+        for f in ("body", "orelse", "finalbody"):
+            v = getattr(st, f, None)
+            if isinstance(v, list) and v and isinstance(v[0], ast.stmt):
+                nv, k = _hoist_walrus(v)
+                setattr(st, f, nv)
+                n += k
+        if isinstance(st, ast.Try):
+            for h in st.handlers:
+                h.body, k = _hoist_walrus(h.body)
+                n += k
+        if isinstance(st, ast.If) and isinstance(st.test, ast.BoolOp) and isinstance(st.test.op, ast.Or) and not st.orelse and st.body \
+                and isinstance(st.body[-1], (ast.Return, ast.Raise, ast.Continue, ast.Break)) \
+                and any(isinstance(w, ast.NamedExpr) for w in ast.walk(st.test.values[-1])) \
+                and not any(isinstance(w, ast.NamedExpr) for v_ in st.test.values[:-1] for w in ast.walk(v_)):
+            # if A or <test with a walrus>: leave   ->   if A: leave ; if <test with a walrus>: leave     (the body leaves the block either way)
+            first = ast.copy_location(ast.If(st.test.values[0] if len(st.test.values) == 2 else ast.BoolOp(ast.Or(), st.test.values[:-1]), copy.deepcopy(st.body), []), st)
+            st.test = st.test.values[-1]
+            out.append(ast.fix_missing_locations(first))
+            n += 1
+        if isinstance(st, ast.If):
+            ws = [w for w in ast.walk(st.test) if isinstance(w, ast.NamedExpr)]
+            if len(ws) == 1 and isinstance(ws[0].target, ast.Name):
+                w = ws[0]
+                # position: everything evaluated before the walrus inside the test must be effect-free
+                # decide on a copy: the test is only rewritten when the hoist is valid
+                trial = copy.deepcopy(st.test)
+                w2 = [x for x in ast.walk(trial) if isinstance(x, ast.NamedExpr)][0]
+                marker = ast.Name(w.target.id, ast.Load())
+                trial = _replace_identity(trial, w2, marker)
+                before = _evaluated_before(trial, marker)
+                if before is not None and all(not any(isinstance(x, (ast.Call, ast.NamedExpr)) for x in ast.walk(b)) for b in before):
+                    out.append(ast.copy_location(ast.Assign([ast.Name(w.target.id, ast.Store())], w.value), st))
+                    st.test = trial
+                    n += 1
+        out.append(st)
+    return out, n
+
+
+def _replace_identity(root: ast.expr, old: ast.AST, new: ast.AST) -> ast.expr:
+    if root is old:
+        return new  # type: ignore[return-value]
+    for parent in ast.walk(root):
+        for field, value in ast.iter_fields(parent):
+            if value is old:
+                setattr(parent, field, new)
+                return root
+            if isinstance(value, list):
+                for i, v in enumerate(value):
+                    if v is old:
+                        value[i] = new
+                        return root
+    return root
+
+
+class _ReplaceNode(ast.NodeTransformer):
+    def __init__(self, old: ast.AST, new: ast.AST) -> None:
+        self.old, self.new = old, new
+
+
+def _dispatch_to_chain(block: list[ast.stmt], fn: ast.FunctionDef) -> tuple[list[ast.stmt], int]:
+    """t = {k1: v1, ..}.get(X) ; if t is None: A else: B(t)    ->    __key = X ; if __key == k1: B(v1) elif ... else: A
+    (literal keys; t bound once and read only inside B; the dictionary display is only used for this lookup)"""
+    out: list[ast.stmt] = []
+    n = 0
+    i = 0
+    while i < len(block):
+        st = block[i]
+        for f in ("body", "orelse", "finalbody"):
+            v = getattr(st, f, None)
+            if isinstance(v, list) and v and isinstance(v[0], ast.stmt):
+                nv, k = _dispatch_to_chain(v, fn)
+                setattr(st, f, nv)
+                n += k
+        nxt = block[i + 1] if i + 1 < len(block) else None
+        if (isinstance(st, ast.Assign) and len(st.targets) == 1 and isinstance(st.targets[0], ast.Name) and isinstance(st.value, ast.Call)
+                and isinstance(st.value.func, ast.Attribute) and st.value.func.attr == "get" and isinstance(st.value.func.value, ast.Dict) and len(st.value.args) == 1
+                and st.value.func.value.keys and all(isinstance(k_, ast.Constant) for k_ in st.value.func.value.keys) and isinstance(nxt, ast.If)):
+            t = st.targets[0].id
+            d = st.value.func.value
+            test = unparse(nxt.test)
+            stores = sum(1 for x in ast.walk(fn) if isinstance(x, ast.Name) and x.id == t and isinstance(x.ctx, ast.Store))
+            if stores == 1 and test in (f"{t} is None", f"{t} is not None", t, f"not {t}"):
+                miss, hit = (nxt.body, nxt.orelse) if test in (f"{t} is None", f"not {t}") else (nxt.orelse, nxt.body)
+                used_outside = sum(1 for x in ast.walk(fn) if isinstance(x, ast.Name) and x.id == t and isinstance(x.ctx, ast.Load)) != \
+                    sum(1 for b in hit for x in ast.walk(b) if isinstance(x, ast.Name) and x.id == t and isinstance(x.ctx, ast.Load)) + 1
+                if not used_outside:
+                    key = f"__key_{t}"
+                    pre = ast.Assign([ast.Name(key, ast.Store())], st.value.args[0])
+                    tail: list[ast.stmt] = [b for b in miss if not isinstance(b, ast.Pass)]
+                    for k_, v_ in reversed(list(zip(d.keys, d.values))):
+                        class _S(ast.NodeTransformer):
+                            def visit_Name(self, x: ast.Name) -> ast.AST:
+                                return copy.deepcopy(v_) if x.id == t and isinstance(x.ctx, ast.Load) else x  # noqa: B023
+
+                        arm = [_S().visit(copy.deepcopy(b)) for b in hit] or [ast.Pass()]
+                        tail = [ast.If(ast.Compare(ast.Name(key, ast.Load()), [ast.Eq()], [k_]), arm, tail)]
+                    for o in [pre] + tail:
+                        ast.copy_location(o, st)
+                        ast.fix_missing_locations(o)
+                    out += [pre] + tail
+                    n += 1
+                    i += 2
+                    continue
+        out.append(st)
+        i += 1
+    return out, n
+
+
 class _MatchToIf(ast.NodeTransformer):
     """`match X: case <literal> | <literal>: ... case _: ...` (literal / dotted-name / None patterns, optional guards, no captures) is the
     if / elif / else chain over `X == literal`; X must be call-free, or a plain name is bound to it first"""
@@ -1110,7 +1324,8 @@ def _new_constants(mi: ModuleInfo, known_globals: set[str], repo: "Repo | None" 
             if v is None and isinstance(val, (ast.List, ast.Set)) and val.elts and all(isinstance(e, ast.Constant) for e in val.elts) and _read_only_global(mi, name, repo):
                 v = ast.Tuple(list(val.elts), ast.Load())  # a list / set nobody can change is that tuple of literals
             if v is None and isinstance(val, ast.Dict) and val.keys and all(isinstance(k_, ast.Constant) for k_ in val.keys) \
-                    and all(_const_value(x_, known_globals | set(mi.imports)) is not None for x_ in val.values) and _read_only_global(mi, name, repo):
+                    and all(_const_value(x_, known_globals | set(mi.imports)) is not None or (isinstance(x_, ast.Attribute) and isinstance(x_.value, ast.Name)
+                            and x_.value.id[:1].isupper() and x_.value.id in (known_globals | set(mi.imports))) for x_ in val.values) and _read_only_global(mi, name, repo):
                 v = val  # a lookup table nobody can change reads as its literal
             if v is not None:
                 consts[name] = v
@@ -1128,6 +1343,13 @@ def normalize_repo(repo: Repo) -> dict[str, object]:
                 fn.node = mt.visit(fn.node)
                 if mt.done:
                     report.setdefault("match_to_if", []).append(f"{fn.where}: {mt.done}")  # type: ignore[union-attr]
+    for mi in repo.modules.values():
+        for fn in list(mi.functions.values()) + [m for c in mi.classes.values() for m in c.methods.values()]:
+            if any(isinstance(n, ast.NamedExpr) for n in ast.walk(fn.node)):
+                fn.node.body, k_w = _hoist_walrus(fn.node.body)
+                if k_w:
+                    ast.fix_missing_locations(fn.node)
+                    report.setdefault("walrus_hoisted", []).append(f"{fn.where}: {k_w}")  # type: ignore[union-attr]
     # new module-level constants are folded into the functions first: a literal that was given a name is still that literal
     for mi in repo.modules.values():
         known = census.get(mi.name)
@@ -1140,6 +1362,49 @@ def normalize_repo(repo: Repo) -> dict[str, object]:
                 fn.node = cp0.visit(fn.node)
                 if cp0.hits:
                     report["propagated_constants"].append(f"{fn.where}: {cp0.hits}")  # type: ignore[union-attr]
+    # new class-level constants (`MAX_RECORD_SIZE = 0xFFFF` in the class body, read as self.MAX_RECORD_SIZE) are the literal too, when no
+    # statement of the package stores an attribute of that name and no confirmed function mentions it
+    stored_attrs = {n.attr for om in repo.modules.values() for n in ast.walk(om.tree) if isinstance(n, ast.Attribute) and isinstance(n.ctx, (ast.Store, ast.Del))}
+    for mi in repo.modules.values():
+        known = census.get(mi.name)
+        if known is None:
+            continue
+        known_text = "\n".join(known.get("source", {}).values())
+        for ci in mi.classes.values():
+            cconsts: dict[str, ast.AST] = {}
+            for st in ci.node.body:
+                tgt = st.targets[0] if isinstance(st, ast.Assign) and len(st.targets) == 1 else (st.target if isinstance(st, ast.AnnAssign) and st.value is not None else None)
+                if isinstance(tgt, ast.Name) and tgt.id not in stored_attrs and tgt.id.isupper() and tgt.id not in known_text:
+                    v = _const_value(st.value, set(known.get("globals", [])) | set(mi.imports))  # type: ignore[union-attr]
+                    if v is not None:
+                        cconsts[tgt.id] = v
+            if not cconsts:
+                continue
+
+            class _CC(ast.NodeTransformer):
+                def __init__(self) -> None:
+                    self.hits = 0
+
+                def visit_Attribute(self, node: ast.Attribute) -> ast.AST:
+                    self.generic_visit(node)
+                    if isinstance(node.ctx, ast.Load) and node.attr in cconsts and isinstance(node.value, ast.Name) and node.value.id in ("self", "cls", ci.name):  # noqa: B023
+                        self.hits += 1
+                        return ast.copy_location(copy.deepcopy(cconsts[node.attr]), node)  # noqa: B023
+                    return node
+
+            for m in ci.methods.values():
+                cc = _CC()
+                m.node = cc.visit(m.node)
+                if cc.hits:
+                    report["propagated_constants"].append(f"{m.where}: {cc.hits} (class constant)")  # type: ignore[union-attr]
+    for mi in repo.modules.values():
+        if census.get(mi.name) is None:
+            continue
+        for fn in list(mi.functions.values()) + [m for c in mi.classes.values() for m in c.methods.values()]:
+            if any(isinstance(n, ast.Dict) for n in ast.walk(fn.node)):
+                fn.node.body, k_d = _dispatch_to_chain(fn.node.body, fn.node)
+                if k_d:
+                    report.setdefault("dispatch_table_to_chain", []).append(f"{fn.where}: {k_d}")  # type: ignore[union-attr]
     _restore_equivalent(repo, census, report)
     for mi in repo.modules.values():
         known = census.get(mi.name)
@@ -1181,6 +1446,8 @@ def normalize_repo(repo: Repo) -> dict[str, object]:
             _restore_equivalent(repo, {mi.name: known}, report)
         # ---- new constants
         consts = _new_constants(mi, known_globals, repo)
+        # ---- new @contextmanager helpers with one `yield`: `with helper(args): BODY` is the helper's body with BODY in place of the yield
+        _inline_contextmanagers(mi, known_funcs, report)
         # ---- new helpers
         helpers_mod = {f.name: f for f in mi.functions.values() if f.qualname not in known_funcs and _plain(f)}
         all_fns: list[FunctionInfo] = list(mi.functions.values()) + [m for c in mi.classes.values() for m in c.methods.values()]
@@ -1306,6 +1573,53 @@ def normalize_repo(repo: Repo) -> dict[str, object]:
                 used = used or any(cname in om.imports and om.imports[cname][0] == mi.name for om in repo.modules.values())
                 if not used and cname in mi.classes:
                     del mi.classes[cname]
+    # ---- once helpers are folded in, a lookup table that was only handed to a helper is read in place: propagate it and unfold the dispatch
+    for mi in repo.modules.values():
+        known = census.get(mi.name)
+        if known is None:
+            continue
+        known_globals_ = set(known.get("globals", []))
+        fns_ = list(mi.functions.values()) + [m for c in mi.classes.values() for m in c.methods.values()]
+        late: dict[str, ast.AST] = {}
+        for name, st in mi.assigns_all:
+            val = getattr(st, "value", None)
+            if name in known_globals_ or not isinstance(val, ast.Dict) or sum(1 for n_, _ in mi.assigns_all if n_ == name) != 1:
+                continue
+            if not (val.keys and all(isinstance(k_, ast.Constant) for k_ in val.keys)):
+                continue
+            names_ok_ = known_globals_ | set(mi.imports)
+            if not all(_const_value(x_, names_ok_) is not None or (isinstance(x_, ast.Attribute) and isinstance(x_.value, ast.Name) and x_.value.id[:1].isupper()
+                                                                      and x_.value.id in names_ok_) for x_ in val.values):
+                continue  # only tables of literals / enum members are values that can be written in place
+            if any(name in om.imports and om.imports[name][0] == mi.name for om in repo.modules.values() if om is not mi):
+                continue
+            ok_, uses_ = True, 0
+            for fn in fns_:
+                parents: dict[int, ast.AST] = {}
+                for p_ in ast.walk(fn.node):
+                    for c_ in ast.iter_child_nodes(p_):
+                        parents[id(c_)] = p_
+                for n in ast.walk(fn.node):
+                    if isinstance(n, ast.Name) and n.id == name:
+                        par = parents.get(id(n))
+                        uses_ += 1
+                        if not (isinstance(n.ctx, ast.Load) and ((isinstance(par, ast.Attribute) and par.attr in _READ_METHODS and isinstance(parents.get(id(par)), ast.Call))
+                                                                 or (isinstance(par, ast.Subscript) and par.value is n and isinstance(par.ctx, ast.Load))
+                                                                 or (isinstance(par, ast.Compare) and par.comparators and par.comparators[0] is n))):
+                            ok_ = False
+            module_uses = sum(1 for n in ast.walk(mi.tree) if isinstance(n, ast.Name) and n.id == name and not any(n is x for f_ in mi.tree.body if isinstance(f_, (ast.FunctionDef, ast.ClassDef)) for x in ast.walk(f_)))
+            if ok_ and uses_ and module_uses == 1:
+                late[name] = val
+        if late:
+            for fn in fns_:
+                cp_ = _ConstProp({k: v for k, v in late.items() if k not in _bound_in(fn.node)})
+                fn.node = cp_.visit(fn.node)
+                if cp_.hits:
+                    fn.node.body, k_d = _dispatch_to_chain(fn.node.body, fn.node)
+                    ast.fix_missing_locations(fn.node)
+                    report["propagated_constants"].append(f"{fn.where}: {cp_.hits} (lookup table read in place)")  # type: ignore[union-attr]
+                    if k_d:
+                        report.setdefault("dispatch_table_to_chain", []).append(f"{fn.where}: {k_d}")  # type: ignore[union-attr]
     # ---- which known functions now use syntax the confirmed function did not (comprehensions, walrus, match, conditional expressions,
     # generator helpers such as next / any / zip ...): the rules' extractors were written against the confirmed idioms, so a pattern they do
     # not find in such a function is "not decided", not "absent" (report.Ctx.check)
